@@ -41,7 +41,7 @@ Definition pairs_of (m : rmethod) : list (rmethod * string) :=
 Definition reply_id_of (handler : string) : string := upper_snake handler ++ "_REPLY_ID".
 
 Inductive rdiag := RDataNotFirst | RDataNotSuccess | RMissingPayload | RRedundantPayload | RDuplicated
-                 | RMismatchedQuantity | RMismatchedParam | RDataInstantiateRaw.
+                 | RMismatchedQuantity | RMismatchedParam | RDataInstantiateRaw | RMismatchedPayloadMarker.
 
 (* ReplyOn::excludes *)
 Definition excludes (a b : reply_on) : bool :=
@@ -96,6 +96,8 @@ Definition rd_new (m : rmethod) (hid : string) : reply_data * list rdiag :=
   ({| rd_reply_id := reply_id_of hid; rd_handler_id := hid; rd_handlers := [(rm_name m, rm_on m)];
       rd_data := data; rd_payload := payload |}, d1 ++ d2 ++ redundant_diags payload).
 
+Definition is_payload_marked (payload : list rfield) : bool := existsb rf_payload payload.
+
 Fixpoint zip_mismatch (a b : list rfield) : list rdiag :=
   match a, b with
   | x :: r, y :: s => (if rf_ty x =? rf_ty y then [] else [RMismatchedParam]) ++ zip_mismatch r s
@@ -111,7 +113,8 @@ Definition rd_merge (rd : reply_data) (m : rmethod) : reply_data * list rdiag :=
       rd_data := match rd_data rd with Some d => Some d | None => rd_data n end;
       rd_payload := rd_payload rd |},
    dn ++ (if Nat.eqb (length (rd_payload rd)) (length (rd_payload n)) then [] else [RMismatchedQuantity])
-      ++ zip_mismatch (rd_payload rd) (rd_payload n)).
+      ++ zip_mismatch (rd_payload rd) (rd_payload n)
+      ++ (if Bool.eqb (is_payload_marked (rd_payload rd)) (is_payload_marked (rd_payload n)) then [] else [RMismatchedPayloadMarker])).
 
 Fixpoint replace_rd (t : list reply_data) (rid : string) (f : reply_data -> reply_data) : list reply_data :=
   match t with
@@ -149,7 +152,6 @@ Definition cw_reply_on (rd : reply_data) : reply_on :=
   if has ROAlways || (has ROSuccess && has ROError) then ROAlways
   else if has ROSuccess then ROSuccess else ROError.
 
-Definition is_payload_marked (payload : list rfield) : bool := existsb rf_payload payload.
 
 Definition success_handler (rd : reply_data) : option (string * reply_on) :=
   find (fun h : string * reply_on => reply_on_eqb (snd h) ROSuccess || reply_on_eqb (snd h) ROAlways) (rd_handlers rd).
